@@ -366,8 +366,8 @@ htp_status_t htp_connp_REQ_CONNECT_PROBE_DATA(htp_connp_t *connp) {
         fprint_raw_data(stderr, "htp_connp_REQ_CONNECT_PROBE_DATA: tunnel is not HTTP", data, len);
 #endif
         connp->in_status = HTP_STREAM_TUNNEL;
-        // Do not resurrect a response stream that has already failed.
-        if (connp->out_status != HTP_STREAM_ERROR)
+        // Do not resurrect a response stream that has already failed or was stopped.
+        if ((connp->out_status != HTP_STREAM_ERROR) && (connp->out_status != HTP_STREAM_STOP))
             connp->out_status = HTP_STREAM_TUNNEL;
     }
 
